@@ -1,0 +1,67 @@
+// +build verif
+
+package core
+
+import "github.com/tikv/pd/pkg/btree"
+
+// This file only exports internals of RegionsInfo for the verification harness
+// (/verif, property C07).  It reads fields; it does not implement anything.
+
+// VerifTreeIDs returns the region ids of the main tree in tree order and the raw totalSize field.
+func (r *RegionsInfo) VerifTreeIDs() ([]uint64, int64) {
+	return verifTreeIDs(r.tree)
+}
+
+// VerifSubTrees returns, for one family ("leader", "follower", "learner", "pending"),
+// store id -> (region ids in tree order, raw totalSize field) for the sub-trees that exist.
+func (r *RegionsInfo) VerifSubTrees(role string) (map[uint64][]uint64, map[uint64]int64) {
+	var fam map[uint64]*regionTree
+	switch role {
+	case "leader":
+		fam = r.leaders
+	case "follower":
+		fam = r.followers
+	case "learner":
+		fam = r.learners
+	case "pending":
+		fam = r.pendingPeers
+	}
+	ids := make(map[uint64][]uint64, len(fam))
+	sizes := make(map[uint64]int64, len(fam))
+	for store, t := range fam {
+		ids[store], sizes[store] = verifTreeIDs(t)
+	}
+	return ids, sizes
+}
+
+// VerifSubTreeTotalSize returns regionTree.TotalSize() of one sub-tree (0 for a missing tree).
+func (r *RegionsInfo) VerifSubTreeTotalSize(role string, storeID uint64) int64 {
+	switch role {
+	case "leader":
+		return r.leaders[storeID].TotalSize()
+	case "follower":
+		return r.followers[storeID].TotalSize()
+	case "learner":
+		return r.learners[storeID].TotalSize()
+	case "pending":
+		return r.pendingPeers[storeID].TotalSize()
+	}
+	return 0
+}
+
+// VerifTreeTotalSize returns regionTree.TotalSize() of the main tree.
+func (r *RegionsInfo) VerifTreeTotalSize() int64 {
+	return r.tree.TotalSize()
+}
+
+func verifTreeIDs(t *regionTree) ([]uint64, int64) {
+	if t == nil {
+		return nil, 0
+	}
+	var ids []uint64
+	t.tree.Ascend(func(i btree.Item) bool {
+		ids = append(ids, i.(*regionItem).region.GetID())
+		return true
+	})
+	return ids, t.totalSize
+}
